@@ -140,6 +140,27 @@ class PathLimit(Exception):
     pass
 
 
+def assertion_indices(outs, o):
+    """Indices of the path conditions of outcome `o` that are ASSERTIONS: every path of `outs` that reaches the same decision (same
+    conditions before it, same atom) and decides it the other way panics (`assert!` / `debug_assert!` / `unwrap` written as a branch).
+    What the function does on the surviving side does not depend on such a condition - there is no other side."""
+    if o.kind == 'abort':
+        return set()
+    idx = set()
+    for i, (a, v) in enumerate(o.conds):
+        pre = o.conds[:i]
+        others = [o2 for o2 in outs if o2 is not o and len(o2.conds) > i and o2.conds[i][0] == a and o2.conds[i][1] != v and o2.conds[:i] == pre]
+        if others and all(o2.kind == 'abort' for o2 in others):
+            idx.add(i)
+    return idx
+
+
+def guards(outs, o):
+    """the path conditions of `o` without its assertions"""
+    skip = assertion_indices(outs, o)
+    return [c for i, c in enumerate(o.conds) if i not in skip]
+
+
 class Engine:
     def __init__(self, facts, opaque=(), inline_filter=None, max_paths=4096, max_depth=8, models=None,
                  log_enter=False, pure=(), fold_only=None, inline_loops=(), readonly=(), iter_adapters=True, unroll=False, concrete=False):
